@@ -421,6 +421,23 @@ theorem alignGuardDrop_noFault (hc : CfgOK cfg) (h : GeomInv cfg s) {outer : Nat
   obtain ⟨s1, e1, _⟩ := alignGuardDrop_ok hc h hn
   exact ⟨s1, e1⟩
 
+/-- second half of `BumpAlignGuard::drop`: the chunk the guard started in is re-aligned too (since the fix of
+    the by-value-copy finding C18-e); the geometry invariant survives under the inner and the outer minimum
+    alignment, and the current chunk is not touched -/
+theorem alignChunkAt_inv (hc : CfgOK cfg) (h : GeomInv cfg s) {outer : Nat} (hn : MinAlignOK outer) {st : Cur}
+    {s' : State} (he : alignChunkAt cfg s outer st = .ok s') :
+    GeomInv cfg s' ∧ (GeomInv cfg { s with minAlign := outer } → GeomInv cfg { s' with minAlign := outer }) ∧
+      SameShape s s' ∧ s'.cur = s.cur ∧ s'.resps = s.resps ∧
+      (∀ i, s.cur = .chunk i → s'.chunks[i]? = s.chunks[i]?) := by
+  obtain ⟨s1, e1, e2, e3, e4, e5, _, e7, e8⟩ := alignChunkAt_ok hc h hn st
+  rw [e1] at he; cases he
+  exact ⟨e2, e3, e4, e5, e7, e8⟩
+
+theorem alignChunkAt_noFault (hc : CfgOK cfg) (h : GeomInv cfg s) {outer : Nat} (hn : MinAlignOK outer) (st : Cur) :
+    ∃ s', alignChunkAt cfg s outer st = .ok s' := by
+  obtain ⟨s1, e1, _⟩ := alignChunkAt_ok hc h hn st
+  exact ⟨s1, e1⟩
+
 /-! ## reserve -/
 
 theorem reserve_inv (hc : CfgOK cfg) (h : GeomInv cfg s) (hr : RespsOK cfg s) {additional : Nat}
